@@ -33,7 +33,8 @@ ASSUMPTIONS = ["commands queued during the outage may legitimately precede the r
                "(not generated)"]
 REQUIRED_OBS = ["reconnects_judged", "refresh_requests_at_open", "converged_after_change",
                 "unchanged_refresh_silent", "poll_requests_predicted_and_seen",
-                "poll_restarted_by_status", "poll_after_reconnection", "flapping_reconnections"]
+                "poll_restarted_by_status", "poll_after_reconnection", "flapping_reconnections",
+                "refused_attempts_before_reconnection"]
 SOAK = True   # also judged by the whole-run monitors of the soak sessions (vf/soak.py)
 BUDGET = {"quick": 100, "thorough": 1500}
 
@@ -59,6 +60,11 @@ def cases(tier, seed):
                            # the link flaps: the console reads the refresh requests of the
                            # next k connections and drops each without answering
                            "flaps": rnd.choice([0, 0, 0, 1, 2, 3])}
+        # outages of many refused attempts (an hour and more of retries every 2 s)
+        for how, refusals in (("fin", 7), ("rst", 40), ("fin", 1100), ("wfail", 2000)):
+            yield {"k": "reconnect", "gen": gen, "how": how, "tau": 1.0, "outage": 0.5,
+                   "delta": "all", "seed": rnd.randrange(1 << 30), "err": None, "flaps": 0,
+                   "refusals": refusals}
         for outage in OUTAGES:
             for delta in ("none", "one", "all"):
                 yield {"k": "reconnect", "gen": gen, "how": "hb", "tau": 0.0, "outage": outage,
@@ -172,6 +178,12 @@ def run_reconnect(case):
         if c1 is None:
             out["no_conn"] = True
             return
+        for _ in range(case.get("refusals", 0)):
+            # the console is unreachable for a (possibly very) long time: one refused
+            # attempt every 2 s
+            net.script.append((rnd.choice(["refuse", "refuse", "timeout", "unreachable"]), 0.0))
+        if case.get("refusals"):
+            obs["refused_attempts_before_reconnection"] = case["refusals"]
         if case["outage"] > 0:
             # the reconnection is in flight for `outage` seconds
             net.script.append(("accept", case["outage"]))
@@ -195,7 +207,7 @@ def run_reconnect(case):
         await quiesce(loop)
         mutate(w, rnd, case["delta"])
         out["sub_mark"] = log.mark()
-        await asyncio.sleep(case["outage"] + 2.5)
+        await asyncio.sleep(case["outage"] + 2.5 + 2.0 * case.get("refusals", 0))
         await quiesce(loop)
         c2 = net.current()
         out["reconnected"] = c2 is not None and c2.id != c1.id
